@@ -7,6 +7,7 @@ import json, os, shutil, subprocess, sys, re
 wt, n, dest = sys.argv[1], sys.argv[2], sys.argv[3]
 pkg = sys.argv[4] if len(sys.argv) > 4 else "conformance-tests"
 extra = sys.argv[5] if len(sys.argv) > 5 else ""
+cargo_pkg = sys.argv[6] if len(sys.argv) > 6 else pkg
 src = os.path.join(wt, "seeded-out", n)
 env = dict(os.environ, CARGO_NET_OFFLINE="true")
 def sh(cmd, **kw):
@@ -16,7 +17,7 @@ demo_test = "seeded_demo_%s" % n
 demo_path = os.path.join(wt, pkg, "tests", demo_test + ".rs")
 if not os.path.exists(demo_path):
     shutil.copy(os.path.join(src, "demo.rs"), demo_path)
-demo_cmd = "cargo test -p %s --test %s --offline %s" % (pkg, demo_test, extra)
+demo_cmd = "cargo test -p %s --test %s --offline %s" % (cargo_pkg, demo_test, extra)
 def passed(out):
     return re.search(r"test result: FAILED|error(\[E\d+\])?:|panicked", out) is None and "test result: ok" in out
 log = {}
